@@ -9,6 +9,7 @@ extern "C" {
 #include "jls/reader.h"
 #include "jls/threaded_writer.h"
 #include "jls/copy.h"
+#include "jls/raw.h"
 #include "jls/ec.h"
 #include "jls/msg_ring_buffer.h"
 int sim_pthread_mutex_init(pthread_mutex_t *, const pthread_mutexattr_t *);
@@ -418,6 +419,71 @@ RunStatus read_dump(const Plan &p, const std::string &path, Dump &d, bool with_c
 
 RunStatus copy_file(const std::string &src, const std::string &dst, int *rc) {
     sim::spawn([&]() { *rc = jls_copy(src.c_str(), dst.c_str(), nullptr, nullptr, nullptr, nullptr); }, "copy", 6);
+    return sim::run();
+}
+
+RunStatus raw_driver(const Plan &p, int n_ops, const std::string &path_r, const std::string &path_w, uint64_t *n_ok, uint64_t *n_err) {
+    g_cur_plan = &p; apply_knobs(p);
+    sim::spawn([&]() {
+        Rng x = rng_derive(p.seed, "raw");
+        struct jls_raw_s *rr = nullptr, *rw = nullptr;
+        SFile *f = simfs::get(path_r); int64_t fsize = f ? (int64_t) f->bytes.size() : 0;
+        std::vector<int64_t> told;       // offsets the library itself reported
+        auto note = [&](int32_t rc) { if (rc) ++*n_err; else ++*n_ok; };
+        auto an_offset = [&]() -> int64_t {
+            int c = (int) x.below(8);
+            if (c <= 2 && !told.empty()) return told[x.below(told.size())];
+            if (c == 3) return 8 * x.range(0, std::max<int64_t>(1, fsize / 8));
+            if (c == 4) return x.range(0, std::max<int64_t>(1, fsize + 64));
+            if (c == 5) return 0;
+            if (c == 6) return fsize + 8 * x.range(0, 100);
+            return -x.range(1, 1000);
+        };
+        struct jls_chunk_header_s h; memset(&h, 0, sizeof h);
+        for (int i = 0; i < n_ops; ++i) {
+            int c = (int) x.below(24);
+            sim::set_cur_op(3000000 + i);
+            if (!rr && c < 16) { note(jls_raw_open(&rr, path_r.c_str(), "r")); if (!rr) continue; }
+            if (!rw && c >= 16) { note(jls_raw_open(&rw, path_w.c_str(), x.chance(0.8) ? "w" : "a")); if (!rw) continue; }
+            switch (c) {
+                case 0: note(jls_raw_rd_header(rr, &h)); break;
+                case 1: case 2: {      // payload of the current chunk into a buffer of exactly the size the call is told
+                    int32_t rc = jls_raw_rd_header(rr, &h); uint32_t need = rc ? 64 : h.payload_length + 16;
+                    uint32_t mx = x.chance(0.6) ? need : (uint32_t) x.range(0, 2 * (int64_t) std::min<uint32_t>(need, 1u << 20));
+                    mx = std::min<uint32_t>(mx, 8u << 20); ExactBuf b(mx); note(jls_raw_rd_payload(rr, mx, b.p)); break; }
+                case 3: { uint32_t mx = (uint32_t) x.range(0, 70000); ExactBuf b(mx); note(jls_raw_rd(rr, &h, mx, b.p)); break; }
+                case 4: note(jls_raw_chunk_next(rr)); break;
+                case 5: note(jls_raw_chunk_prev(rr)); break;
+                case 6: note(jls_raw_item_next(rr)); break;
+                case 7: note(jls_raw_item_prev(rr)); break;
+                case 8: case 9: note(jls_raw_chunk_seek(rr, an_offset())); break;
+                case 10: note(jls_raw_chunk_scan(rr)); break;
+                case 11: { int64_t t = jls_raw_chunk_tell(rr); if (t > 0 && told.size() < 64) told.push_back(t); break; }
+                case 12: note(jls_raw_seek_end(rr)); break;
+                case 13: (void) jls_raw_version(rr); (void) jls_raw_backend(rr); break;
+                case 14: note(jls_raw_flush(rr)); break;
+                case 15: note(jls_raw_close(rr)); rr = nullptr; break;
+                case 16: case 17: case 18: {     // whole chunk
+                    struct jls_chunk_header_s w; memset(&w, 0, sizeof w); w.tag = (uint8_t) x.pick(std::vector<int>{0x40, 0x22, 0x32, 0x01, 0xff, 0x00, 0x7e}); w.chunk_meta = (uint16_t) x.range(0, 65535);
+                    w.item_next = x.chance(0.2) ? (uint64_t) x.range(0, 100000) : 0; w.item_prev = x.chance(0.2) ? (uint64_t) x.range(0, 100000) : 0;
+                    int pc = (int) x.below(6); w.payload_length = pc == 0 ? 0 : pc == 1 ? 28 : pc < 5 ? (uint32_t) x.range(1, 300) : (uint32_t) x.range(1, 70000);
+                    ExactBuf b(w.payload_length); for (uint32_t k = 0; k < w.payload_length; ++k) b.p[k] = (uint8_t) (k * 7 + i);
+                    note(jls_raw_wr(rw, &w, w.payload_length ? b.p : (x.chance(0.5) ? b.p : nullptr))); break; }
+                case 19: {     // header and payload separately; the payload length sometimes disagrees with the header (must be refused, never trusted)
+                    struct jls_chunk_header_s w; memset(&w, 0, sizeof w); w.tag = 0x40; w.payload_length = (uint32_t) x.range(0, 400);
+                    int32_t rc = jls_raw_wr_header(rw, &w); note(rc);
+                    uint32_t pl = x.chance(0.7) ? w.payload_length : (uint32_t) x.range(0, 800); ExactBuf b(pl); memset(b.p, 0x5a, pl ? pl : 1);
+                    if (!rc) note(jls_raw_wr_payload(rw, pl, b.p)); break; }
+                case 20: { int64_t t = jls_raw_chunk_tell(rw); if (t > 0 && told.size() < 64) told.push_back(t); note(jls_raw_chunk_seek(rw, x.chance(0.7) && !told.empty() ? told[x.below(told.size())] : an_offset())); break; }
+                case 21: note(jls_raw_seek_end(rw)); break;
+                case 22: note(jls_raw_flush(rw)); break;
+                default: note(jls_raw_close(rw)); rw = nullptr; break;
+            }
+        }
+        sim::set_cur_op(-1);
+        if (rr) jls_raw_close(rr);
+        if (rw) jls_raw_close(rw);
+    }, "raw", 7);
     return sim::run();
 }
 
